@@ -687,12 +687,12 @@ impl PreferenceManager {
         // don't do an update if the value hasn't changed
         let mut is_user_pref = true;
         if let Some(pref_value) = self.api_prefs.prefs.get(key) {
-            if pref_value.as_str().unwrap() != value {
+            if pref_value.as_str().unwrap_or("\u{FFFF}") != value {
                 is_user_pref = false;
                 self.reset_files_from_preference_change(key, value)?;
             }
         } else if let Some(pref_value) = self.user_prefs.prefs.get(key) {
-            if pref_value.as_str().unwrap() != value {
+            if pref_value.as_str().unwrap_or("\u{FFFF}") != value {
                 self.reset_files_from_preference_change(key, value)?;
             }
         } else {
@@ -755,6 +755,12 @@ impl PreferenceManager {
         };
 
         self.api_prefs.prefs.insert(key.to_string(), Yaml::Real(value.to_string()));
+    }
+
+    /// Some(true) if 'key' is a known preference with a boolean value, Some(false) if known with some other kind of value, None if unknown.
+    pub fn is_boolean_pref(&self, key: &str) -> Option<bool> {
+        let value = self.api_prefs.prefs.get(key).or_else(|| self.user_prefs.prefs.get(key));
+        return value.map(|v| matches!(v, Yaml::Boolean(_)));
     }
 
     pub fn set_api_boolean_pref(&mut self, key: &str, value: bool) {
